@@ -1,14 +1,19 @@
 import MiniconfVerif.Model.PackedDriver
 import MiniconfVerif.Model.PathDriver
 import MiniconfVerif.Model.TreeDriver
+import MiniconfVerif.Model.ValueDriver
 
 open MiniconfVerif
 
 structure DState where
   schemas : Array (Nat × Schema) := #[]
+  trees : Array (Nat × Nat × Tree) := #[]
 
 def DState.schema? (st : DState) (tid : Nat) : Option Schema :=
   (st.schemas.find? (·.1 == tid)).map (·.2)
+
+def DState.tree? (st : DState) (tid sid : Nat) : Option Tree :=
+  (st.trees.find? fun x => x.1 == tid && x.2.1 == sid).map (·.2.2)
 
 /-- `<stream> <case-id> <args…>` in, `<case-id> <canonical outcome>` out -/
 def handle (st : DState) (line : String) : DState × String :=
@@ -22,6 +27,23 @@ def handle (st : DState) (line : String) : DState × String :=
       | tid :: rest =>
         match tid.toNat?, TreeDriver.parseSchema rest with
         | some tid, some (s, []) => ({ st with schemas := st.schemas.push (tid, s) }, s!"{id} decl")
+        | _, _ => (st, s!"{id} bad-op")
+      | _ => (st, s!"{id} bad-op")
+    | "V" =>
+      match args with
+      | tid :: sid :: rest =>
+        match tid.toNat?, sid.toNat?, ValueDriver.parseTree rest with
+        | some tid, some sid, some (t, []) => ({ st with trees := st.trees.push (tid, sid, t) }, s!"{id} decl")
+        | _, _, _ => (st, s!"{id} bad-op")
+      | _ => (st, s!"{id} bad-op")
+    | "tv" =>
+      match args with
+      | tid :: sid :: rest =>
+        match tid.toNat?, sid.toNat? with
+        | some tid, some sid =>
+          match st.tree? tid sid with
+          | some t => (st, s!"{id} {ValueDriver.run t rest}")
+          | none => (st, s!"{id} bad-op")
         | _, _ => (st, s!"{id} bad-op")
       | _ => (st, s!"{id} bad-op")
     | "tk" =>
